@@ -44,13 +44,12 @@ def c01_runs(tier, seed):
     n = q(tier, 24000, 1500000)
     nf = q(tier, 16000, 400000)
     runs = [RunSpec("gen", "Q", "plain", n),
-            RunSpec("gen", "d", "plain", nf)]
+            RunSpec("gen", "d", "plain", nf),
+            RunSpec("gen", "f", "plain", nf), RunSpec("gen", "ld", "plain", nf)]
     if tier == "thorough":
         # every multiplicity vector in {1..p+2}^nd for nd = 2..5, p = 0..6
         total = sum((p + 2) ** nd for p in range(7) for nd in range(2, 6))
-        runs += [RunSpec("gen", "f", "plain", nf),
-                 RunSpec("gen", "ld", "plain", nf),
-                 RunSpec("gen", "Q", "nochk", n // 8, defines=("MAXP=10",)),
+        runs += [RunSpec("gen", "Q", "nochk", n // 8, defines=("MAXP=10",)),
                  RunSpec("gen", "d", "nochk", n // 8, defines=("MAXP=10",)),
                  RunSpec("gen", "Q", "plain", total, params={"enum": 1},
                          name="gen-enum"),
@@ -78,7 +77,8 @@ reg(Spec(
               "pattern:random-mult", "pattern:short", "pattern:long-mixed",
               "route:0", "route:1", "route:2", "route:3",
               "obs:partition-of-unity", "obs:continuity",
-              "supplied-grid:negative-zero"] +
+              "supplied-grid:negative-zero",
+              "persistent-generator:checked"] +
              ["order:%d" % p for p in range(7)],
     assumptions=[DYADIC, MODEL, "orders 0..6 (0..10 in the thorough run; the "
                  "examples use order 10); the "
@@ -151,11 +151,12 @@ reg(Spec(
 
 def c04_runs(tier, seed):
     n = q(tier, 60000, 3000000)
-    runs = [RunSpec("ops", "Q", "plain", n), RunSpec("ops", "d", "plain", n)]
+    runs = [RunSpec("ops", "Q", "plain", n), RunSpec("ops", "d", "plain", n),
+            RunSpec("ops", "f", "plain", n // 3),
+            RunSpec("ops", "ld", "plain", n // 3)]
     runs += high_runs(tier, seed)
     if tier == "thorough":
-        runs += [RunSpec("ops", "f", "plain", n // 3),
-                 RunSpec("ops", "ld", "plain", n // 3),
+        runs += [
                  RunSpec("ops", "Q", "nochk", n // 6, defines=("MAXO=10",)),
                  RunSpec("ops", "d", "nochk", n // 6, defines=("MAXO=10",))]
     return runs
@@ -253,7 +254,7 @@ def expr_deep(tier, seed):
 
 
 def c05_runs(tier, seed):
-    runs = expr_runs(tier, seed) + expr_deep(tier, seed)
+    runs = expr_runs(tier, seed) + expr_deep(tier, seed) + expr_ld(tier, seed)
     runs += [RunSpec("pool", "Q", "plain", q(tier, 160, 10000))]
     return runs
 
@@ -280,9 +281,15 @@ reg(Spec(
               "with an interpreter of the same AST over the reference model"))
 
 
+def expr_ld(tier, seed):
+    """the catalogue alone over long double and float"""
+    return expr_runs(tier, seed, scalars=("ld", "f"), nrandom=0,
+                     cases_per_tu=q(tier, 1800, 18000))
+
+
 def c06_runs(tier, seed):
-    return expr_runs(tier, seed) + expr_deep(tier, seed) + high_runs(
-        tier, seed) + [
+    return expr_runs(tier, seed) + expr_deep(tier, seed) + expr_ld(
+        tier, seed) + high_runs(tier, seed) + [
         RunSpec("pool", "Q", "plain", q(tier, 160, 10000)),
         RunSpec("pool", "d", "plain", q(tier, 320, 20000))]
 
@@ -322,8 +329,8 @@ reg(Spec(
 
 
 def c07_runs(tier, seed):
-    return expr_runs(tier, seed) + expr_deep(tier, seed) + high_runs(
-        tier, seed) + [
+    return expr_runs(tier, seed) + expr_deep(tier, seed) + expr_ld(
+        tier, seed) + high_runs(tier, seed) + [
         RunSpec("pool", "Q", "plain", q(tier, 160, 10000)),
         RunSpec("pool", "d", "plain", q(tier, 320, 20000))]
 
@@ -1112,8 +1119,10 @@ def pool_runs(tier, seed, flavours=("plain",), scalars=("Q", "d")):
 def c03_runs(tier, seed):
     runs = pool_runs(tier, seed)
     runs += [RunSpec("arith", "Q", "plain", q(tier, 3360, 400000)),
-             RunSpec("arith", "d", "plain", q(tier, 6720, 800000))]
-    runs += high_runs(tier, seed)
+             RunSpec("arith", "d", "plain", q(tier, 6720, 800000)),
+             RunSpec("arith", "f", "plain", q(tier, 3360, 400000)),
+             RunSpec("arith", "ld", "plain", q(tier, 3360, 400000))]
+    runs += high_runs(tier, seed, scalars=("Q", "d", "ld"))
     if tier == "thorough":
         runs += [RunSpec("pool", "f", "plain", 20000),
                  RunSpec("pool", "ld", "plain", 20000),
